@@ -43,6 +43,12 @@ Definition fmt_of (f : fspec) (v mn mx : Z) : str :=
 
 Record cfg := mkCfg { c_col : bool; c_uni : bool; c_mp : mapper; c_fk : fspec }.
 
+(* one Heatmap driven as cmd/heatmap.go drives it: UpdateMinMax and WriteTable calls, each with the
+   Scaler and Formatter assigned to the public fields AT THAT MOMENT *)
+Inductive heat_op :=
+| HoUpd (mp : mapper) (f : fspec) (mn mx : Z)
+| HoTab (mp : mapper) (f : fspec) (a : agg).
+
 Inductive cin :=
 | IScale (mp : mapper) (mn mx : Z) (vs : list Z)       (* Scaler.Scale on ascending vs *)
 | IKeys (mn mx : Z)                                     (* ScalerLinear.ScaleKeys(6, mn, mx) *)
@@ -58,7 +64,9 @@ Inductive cin :=
 | IHeat (c : cfg) (rlim clim : nat) (aggs : list agg)
 | ISpark (c : cfg) (rlim clim : nat) (aggs : list agg)
 | IData (c : cfg) (ncols nrows : nat) (rowtot coltot : bool) (aggs : list agg)
-| IFmt (f : fspec) (calls : list (Z * Z * Z)).         (* one compiled formatter, a sequence of calls *)
+| IFmt (f : fspec) (calls : list (Z * Z * Z))          (* one compiled formatter, a sequence of calls *)
+| IHeatSeq (col uni : bool) (rlim clim : nat) (fixmin fixmax : bool) (ops : list heat_op)
+| ICliSame (auto : list str).                          (* CLI: fixed range = automatic range *)
 
 (* OFail: the implementation panicked or did not return within the watchdog's limit *)
 Inductive obs := OQ (l : list Q) | OZ (l : list Z) | OS (l : list str) | OFail.
@@ -111,6 +119,49 @@ Section WithCfg.
     fold_left (fun s a => dt_write_table col fm ncols nrows rt ct s a) aggs st.
 End WithCfg.
 
+(* state: renderer state, terminal, s.minVal, s.maxVal *)
+Definition hs_state := (hm * list str * Z * Z)%type.
+Definition eff_range (fixmin fixmax : bool) (curmn curmx : Z) (a : agg) : Z * Z :=
+  ((if fixmin then curmn else a_min a), (if fixmax then curmx else a_max a)).
+Definition heat_seq_step (col uni : bool) (rlim clim : nat) (fixmin fixmax : bool) (st : hs_state) (o : heat_op)
+  : option (result hs_state) :=
+  let '(h, tm, cmn, cmx) := st in
+  match o with
+  | HoUpd mp f mn mx =>
+      match heat_update_minmax col uni (m_of mp) round53 (keys_of mp) (fmt_of f) h tm mn mx with
+      | Ok tm' => Some (Ok (h, tm', mn, mx))
+      | Panic => Some Panic
+      end
+  | HoTab mp f a =>
+      let '(mn, mx) := eff_range fixmin fixmax cmn cmx a in
+      match heat_write_table_rng col uni (m_of mp) round53 (keys_of mp) (fmt_of f) mn mx rlim clim h tm a with
+      | Some (Ok (h', tm')) => Some (Ok (h', tm', mn, mx))
+      | Some Panic => Some Panic
+      | None => None
+      end
+  end.
+Fixpoint heat_seq_run (col uni : bool) (rlim clim : nat) (fixmin fixmax : bool) (st : hs_state) (ops : list heat_op)
+  : option (result hs_state) :=
+  match ops with
+  | [] => Some (Ok st)
+  | o :: r => match heat_seq_step col uni rlim clim fixmin fixmax st o with
+              | Some (Ok st') => heat_seq_run col uni rlim clim fixmin fixmax st' r
+              | x => x
+              end
+  end.
+Definition hs_init : hs_state := (hm_new, [], 0, 1).
+(* the ranges alone (no rendering): s.minVal / s.maxVal before the last operation *)
+Fixpoint ranges_before_last (fixmin fixmax : bool) (cmn cmx : Z) (ops : list heat_op) : option (heat_op * Z * Z) :=
+  match ops with
+  | [] => None
+  | [o] => Some (o, cmn, cmx)
+  | o :: r =>
+      match o with
+      | HoUpd _ _ mn mx => ranges_before_last fixmin fixmax mn mx r
+      | HoTab _ _ a => let '(mn, mx) := eff_range fixmin fixmax cmn cmx a in ranges_before_last fixmin fixmax mn mx r
+      end
+  end.
+
 Definition idq : Q -> Q := fun q => q.
 
 Definition model (i : cin) : obs :=
@@ -148,6 +199,12 @@ Definition model (i : cin) : obs :=
   | IData c ncols nrows rt ct aggs =>
       OS (vlines (c_col c) (snd (data_tables c ncols nrows rt ct (dt_new ncols nrows) aggs)))
   | IFmt f calls => OS (map (fun x => fmt_of f (fst (fst x)) (snd (fst x)) (snd x)) calls)
+  | IHeatSeq col uni rlim clim fmn fmx ops =>
+      match heat_seq_run col uni rlim clim fmn fmx hs_init ops with
+      | Some (Ok (_, tm, _, _)) => OS (vlines col tm)
+      | _ => OFail
+      end
+  | ICliSame auto => OS auto
   end.
 
 (* ---------- the property's boolean form on an observed output ---------- *)
@@ -253,6 +310,34 @@ Definition data_row_chk (c : cfg) (mn mx : Z) (k : nat) (rt : bool) (lines : lis
 Definition data_chk (c : cfg) (ncols nrows : nat) (rt : bool) (a : agg) (lines : list str) : bool :=
   all_idx (data_row_chk c (a_min a) (a_max a) (Nat.min ncols (length (a_cols a))) rt lines) 0 (firstn nrows (a_rows a)).
 
+(* heatmap driven as the command drives it: after the last WriteTable every displayed cell is the
+   block of its value under the scaler IN FORCE AT THAT RENDER and the range in force (fixed
+   bounds or the data's), and the legend blocks likewise *)
+Definition heat_seq_row_chk (col uni : bool) (mp : mapper) (mn mx : Z) (cc : nat) (lines : list str)
+  (k : nat) (r : str * list Z * Z) : bool :=
+  match prefix_drop (vis col (wrap col col_Yellow (r_name r))) (nth (2 + k) lines []) with
+  | Some (x :: rest) =>
+      (x =? SP)%N &&
+      match rconcat (fun v => heat_write col uni round53 (scale (m_of mp) round53 v mn mx)) (firstn cc (r_vals r)) with
+      | Ok cells => str_eqb (drop_sp (x :: rest)) (vis col cells)
+      | Panic => false
+      end
+  | _ => false
+  end.
+Definition heat_seq_chk (col uni : bool) (rlim clim : nat) (fmn fmx : bool) (ops : list heat_op) (lines : list str) : bool :=
+  match ranges_before_last fmn fmx 0 1 ops with
+  | Some (HoTab mp f a, cmn, cmx) =>
+      let '(mn, mx) := eff_range fmn fmx cmn cmx a in
+      let cc := Nat.min (length (a_cols a)) clim in
+      let rc := Nat.min (length (a_rows a)) rlim in
+      all_idx (heat_seq_row_chk col uni mp mn mx cc lines) 0 (firstn rc (a_rows a)) &&
+      match legend_items col uni (m_of mp) round53 (fmt_of f) true (keys_of mp mn mx) mn mx with
+      | Ok leg => str_eqb (drop_sp (nth 0 lines [])) (drop_sp (vis col leg))
+      | Panic => false
+      end
+  | _ => true
+  end.
+
 (* histogram, the final screen: every displayed line (value > 0) is the line of its key and value
    under the final running maximum and key width — its bar is the bar of its value against the
    CURRENT maximum, in whatever order the lines were written *)
@@ -285,6 +370,8 @@ Definition check (i : cin) (o : obs) : bool :=
   | ITable col maxc maxr ops, OS lines =>
       rows_ok col (spec_widths col maxc maxr ops) 0 (spec_rows maxr ops) lines
   | IHisto c n sb ops, OS lines => histo_chk c n sb ops lines
+  | IHeatSeq col uni rlim clim fmn fmx ops, OS lines => heat_seq_chk col uni rlim clim fmn fmx ops lines
+  | ICliSame auto, OS fixed => Sl_eqb auto fixed
   | IFmt f calls, OS l =>
       (* the output is a function of (value, min, max) alone: the template instantiated *)
       zip_all (fun x out => str_eqb out (fmt_of f (fst (fst x)) (snd (fst x)) (snd x))) calls l
@@ -319,3 +406,4 @@ Definition iHisto c (n : Z) sb ops := IHisto c (zn n) sb ops.
 Definition iHeat c (r k : Z) aggs := IHeat c (zn r) (zn k) aggs.
 Definition iSpark c (r k : Z) aggs := ISpark c (zn r) (zn k) aggs.
 Definition iData c (k r : Z) rt ct aggs := IData c (zn k) (zn r) rt ct aggs.
+Definition iHeatSeq (col uni : bool) (r k : Z) (fmn fmx : bool) ops := IHeatSeq col uni (zn r) (zn k) fmn fmx ops.
